@@ -92,6 +92,8 @@ def run_history(cf, steps, pc_id, M, from_decoded=False, lazy=False):
         else:
             msg = cls()
         assoc = dg.make_assoc(M, lazy)
+        if (pc_id + M) % 3 == 0:
+            dg.provoke_encode_failure()     # an earlier, unrelated encoding error in this thread
         current = {}
         snapshots = []
         props = property_for(cls)
